@@ -423,8 +423,15 @@ impl<T: ClusterKey> TopologyManager<T> {
         // Update our partition replica assignments
         self.partition_replicas = partition_replicas.clone();
 
-        // Update active nodes, but keep ourselves active
+        // Update active nodes, but keep ourselves active and never fall back to an older
+        // incarnation of a node than the one we already know
         let local_peer_id = *self.local_cluster_ref.id().peer_id().unwrap();
+        let mut active_nodes = active_nodes;
+        for (peer_id, (alive_since, _)) in active_nodes.iter_mut() {
+            if let Some((known_alive_since, _)) = self.active_nodes.get(peer_id) {
+                *alive_since = (*alive_since).max(*known_alive_since);
+            }
+        }
         self.active_nodes = active_nodes;
         self.active_nodes
             .insert(local_peer_id, (self.alive_since, self.local_node_index));
@@ -442,6 +449,10 @@ impl<T: ClusterKey> TopologyManager<T> {
         for peer_id in self.active_nodes.keys() {
             self.node_heartbeats.insert(*peer_id, now);
         }
+
+        // The sender computed its assignments from its own membership view, which may not
+        // include this node; derive ours from the membership we hold now
+        self.recalculate_partition_assignments();
 
         info!("updated partition replica assignments from remote information");
     }
